@@ -15,7 +15,10 @@ WORK = os.path.join(ROOT, "work")
 COQ_SHARED = os.path.join(ROOT, "coq")
 if REPO == "/repo":
     COQ = COQ_SHARED
+    HBIN = os.path.join(ROOT, "harness", "bin")
 else:
+    # ... and its own directory of harness binaries (built against that tree)
+    HBIN = os.path.join(ROOT, "harness", "bin-" + re.sub(r"\W", "_", REPO))
     # a scratch worktree of the repository gets its own copy of the Coq tree (sources are synced from
     # /verif/coq at the start of every check, Gen/ and the compiled files are its own), so that its
     # translator output can never disturb checks running against /repo or other worktrees
@@ -317,7 +320,7 @@ class Ctx:
     # ---------------------------------------------------------------- harness
     def harness_build(self, name, race=False):
         hdir = os.path.join(ROOT, "harness")
-        os.makedirs(os.path.join(hdir, "bin"), exist_ok=True)
+        os.makedirs(HBIN, exist_ok=True)
         with open(os.path.join(hdir, ".build.lock"), "w") as lk:
             fcntl.flock(lk, fcntl.LOCK_EX)
             cmd = ["go", "build", "-tags", "verif"] + (["-race"] if race else [])
@@ -331,7 +334,7 @@ class Ctx:
                     f.write(open(os.path.join(hdir, "go.mod")).read().replace("=> /repo", "=> " + REPO))
                 shutil.copyfile(os.path.join(REPO, "go.sum"), alt[:-4] + ".sum")
                 cmd += ["-modfile", alt]
-            rc, out = sh(cmd + ["-o", os.path.join(hdir, "bin", name + ("-race" if race else "")), "./cmd/" + name],
+            rc, out = sh(cmd + ["-o", os.path.join(HBIN, name + ("-race" if race else "")), "./cmd/" + name],
                          env=GOENV, cwd=hdir, timeout=1200)
         if rc != 0:
             self.broken.append(("correspondence: harness %s does not build against the current tree" % name, out[-3000:]))
@@ -339,7 +342,7 @@ class Ctx:
         return True
 
     def harness_run(self, name, args, timeout=1200, env=None):
-        exe = os.path.join(ROOT, "harness", "bin", name)
+        exe = os.path.join(HBIN, name)
         e = dict(GOENV)
         if env:
             e.update(env)
@@ -357,7 +360,7 @@ class Ctx:
         """Run the race-detector build of a harness (thorough tier). A reported data race is a finding."""
         if not self.harness_build(name, race=True):
             return
-        exe = os.path.join(ROOT, "harness", "bin", name + "-race")
+        exe = os.path.join(HBIN, name + "-race")
         e = dict(GOENV, GORACE="halt_on_error=1 exitcode=66")
         if env:
             e.update(env)
@@ -381,7 +384,7 @@ class Ctx:
         """The harness process died (a panic in a goroutine of the code under test cannot be recovered): find
         the case that kills it by re-running the same seeded script one case at a time (`-only k`).
         Returns (index, output tail) or None."""
-        exe = os.path.join(ROOT, "harness", "bin", name)
+        exe = os.path.join(HBIN, name)
         e = dict(GOENV)
         if env:
             e.update(env)
